@@ -52,11 +52,12 @@ def returning_words(prog):
     return ret
 
 
-def must_call(prog, target, sites):
+def must_call(prog, target, sites, gensites=()):
     """for each site (word, pc): has word `target` completed on every path from the entry word to the site?
     forward must-analysis, meet = AND; paths through no-return natives / non-returning words do not count"""
     nr = noreturn_natives(prog)
     returns = returning_words(prog)
+    gensites = set(gensites)        # instruction sites (word, pc) that establish the fact when executed
 
     def flow(w, fin, gen):
         W = prog.words[w]
@@ -91,6 +92,8 @@ def must_call(prog, target, sites):
                 if not returns[i.arg]:
                     continue
                 f = f or i.arg == target or gen[i.arg]
+            if (w, pc) in gensites:
+                f = True
             if i.next in W.ins:
                 push(i.next, f)
         return fact, retfact
